@@ -557,7 +557,7 @@ namespace cds { namespace container {
 #endif
         upsert( Q&& key, V&& val, bool bAllowInsert = true )
         {
-            std::pair<bool, bool> bRet = bucket( val ).upsert( std::forward<Q>( key ), std::forward<V>( val ), bAllowInsert );
+            std::pair<bool, bool> bRet = bucket( key ).upsert( std::forward<Q>( key ), std::forward<V>( val ), bAllowInsert );
             if ( bRet.second )
                 ++m_ItemCounter;
             return bRet;
